@@ -41,7 +41,8 @@ pub fn graph2j(g: &Graph) -> Value {
             }
         })
         .collect();
-    let mut ds: Vec<&usize> = g.edges.keys().collect();
+    // canonical form: a destination whose incoming list is empty is not part of the value
+    let mut ds: Vec<&usize> = g.edges.iter().filter(|(_, v)| !v.is_empty()).map(|(k, _)| k).collect();
     ds.sort();
     let edges: Vec<Value> = ds
         .iter()
